@@ -90,6 +90,8 @@ pub fn run(args: &[String]) -> Value {
     let n: usize = args.get(2).and_then(|s| s.parse().ok()).unwrap_or(5000);
     let seed: u64 = args.get(3).and_then(|s| s.parse().ok()).unwrap_or(1);
     let threads: usize = args.get(4).and_then(|s| s.parse().ok()).unwrap_or(8);
+    // sample mode: the last frame is enumerated exhaustively when it is at most this many bytes long
+    let last_cap: usize = args.get(5).and_then(|s| s.parse().ok()).unwrap_or(6000);
     let data = std::fs::read(file).expect("read skf");
     let regions = classify(&data);
     let pristine = {
@@ -123,15 +125,28 @@ pub fn run(args: &[String]) -> Value {
             let off = (next() % data.len() as u64) as usize;
             faults.push((1, off, (next() % 8) as u8));
         }
+        // prefixes: about every 17th byte of files up to 20 kB, proportionally sparser for larger files (plus the frame
+        // boundaries below)
+        let stride = 33 * std::cmp::max(1, data.len() / 20000) as u64;
         let mut cut = 0;
         while cut < data.len() {
             faults.push((0, cut, 0));
-            cut += 1 + (next() % 33) as usize;
+            cut += 1 + (next() % stride) as usize;
+        }
+        // every frame boundary, one byte before and after it
+        for off in 1..data.len() {
+            if regions[off].1 != regions[off - 1].1 {
+                for c in [off - 1, off, off + 1] {
+                    if c < data.len() {
+                        faults.push((0, c, 0));
+                    }
+                }
+            }
         }
         // the last frame (the tail of the serialised table) exhaustively when it is short: every bit, every cut
         let nfr = regions.iter().map(|r| r.1).max().unwrap_or(0);
         let last: Vec<usize> = (0..data.len()).filter(|o| regions[*o].1 == nfr).collect();
-        if nfr > 1 && last.len() <= 6000 {
+        if nfr > 1 && last.len() <= last_cap {
             for off in last {
                 faults.push((0, off, 0));
                 for bit in 0..8 {
